@@ -98,6 +98,8 @@ def snapshot(a):
     """deep snapshot of every public array of an Atoms object, for immutability comparisons"""
     out = {}
     for k, v in vars(a).items():
+        if k.startswith("_"):
+            continue            # private attributes (lazily filled caches) are not part of what the caller handed over
         if isinstance(v, np.ndarray):
             out[k] = ("nd", v.dtype.str, v.shape, v.tolist())
         elif v is None:
